@@ -15,7 +15,7 @@ from ..core import Ctx, quiet
 from .c10 import rot_spec_formula, MOLS, UNIT
 
 FORMATS = {   # trajectory extension -> (structure extension, precision of the format in 1e-3 Angstrom, incl. float32)
-    "xtc": ("gro", 12), "xyz": ("gro", 2), "gro": ("gro", 12), "dir-xyz": ("gro", 2), "dir-gro": ("gro", 12),
+    "xtc": ("gro", 12), "xyz": ("gro", 2), "trr": ("gro", 2), "dir-xyz": ("gro", 2), "dir-gro": ("gro", 12),     # (MDAnalysis has no multi-frame gro writer)
 }
 
 
@@ -101,7 +101,7 @@ def pipeline(tid, spec, fmt, mols, d, events):
             chk["dev3"] = int(np.ceil(np.max(np.abs(got[:, len(ref1):, :] - want2)) * 1e3))
             chk["m1dev3"] = int(np.ceil(np.max(np.abs(got[:, :len(ref1), :] - ref1[None, :, :])) * 1e3))
             chk["selok"] = bool(sel.shape == want2.shape and np.max(np.abs(sel - want2)) * 1e3 <= tol3)
-            chk["structok"] = bool(st.shape == got[0].shape and np.max(np.abs(st - got[0])) * 1e3 <= 2 * tol3)
+            chk["structok"] = bool(st.shape == got[0].shape and np.max(np.abs(st - got[0])) * 1e3 <= 12 + tol3)       # the structure file is a .gro (0.01 A)
         else:
             chk["dev3"] = chk["m1dev3"] = 10 ** 6
     except Exception as ex:
@@ -116,7 +116,7 @@ def run(ctx: Ctx):
                        "(grid, format, molecules)")
     ctx.model("Molgri", "Molgri_quick.cfg", workers=8, note="pipeline model; pt is a persisted artefact in the full configuration")
     specs = [(("4", "5", "[0.2, 0.35]"), "xtc"), (("1", "7", "[0.2, 0.3, 0.45]"), "xyz"), (("randomQ_5", "cube3D_4", "[0.25]"), "dir-xyz"),
-             (("cube4D_3", "1", "[0.3, 0.5]"), "gro"), (("8", "3", "[0.15, 0.3]"), "dir-gro")]
+             (("cube4D_3", "1", "[0.3, 0.5]"), "trr"), (("8", "3", "[0.15, 0.3]"), "dir-gro")]
     if ctx.tier == "thorough":
         specs += [(("8", "12", "[0.2, 0.3, 0.4]"), "xtc"), (("12", "ico_12", "linspace(0.2, 0.6, 3)"), "dir-xyz"), (("5", "randomS_9", "[0.2, 0.5]"), "xyz")]
     names = ["generic4", "planar3", "five", "linear2", "single"]
